@@ -40,6 +40,10 @@ func (v *Votes) Validate() error {
 }
 
 func (v *Voter) Validate() error {
+	// a pending voter is registered with the hash of its vote key until it proves possession
+	if v.Status == VOTER_STATUS_PENDING && len(v.VoteKey) == sha256.Size {
+		return nil
+	}
 	if len(v.VoteKey) != goatcrypto.PubkeyLength {
 		return errors.New("invalid bls pubkey length")
 	}
